@@ -652,6 +652,34 @@ class Idioms3(ast.NodeTransformer):
     def visit_Call(self, node):
         self.generic_visit(node)
         fn = norm(node.func)
+        # (lambda a, b: E)(x, y) -> E[a := x, b := y]
+        if isinstance(node.func, ast.Lambda) and not node.keywords:
+            la = node.func.args
+            if not (la.vararg or la.kwarg or la.kwonlyargs or la.posonlyargs
+                    or la.defaults) and len(la.args) == len(node.args) and \
+                    not any(isinstance(a, ast.Starred) for a in node.args):
+                names = [a.arg for a in la.args]
+                uses = {n_: sum(1 for x in ast.walk(node.func.body)
+                                if isinstance(x, ast.Name) and x.id == n_)
+                        for n_ in names}
+
+                def simple_(e):
+                    if isinstance(e, (ast.Name, ast.Constant)):
+                        return True
+                    if isinstance(e, ast.Attribute):
+                        return simple_(e.value)
+                    if isinstance(e, ast.Subscript):
+                        return simple_(e.value) and isinstance(
+                            e.slice, (ast.Name, ast.Constant))
+                    return False
+                inner_l = any(isinstance(x, ast.Lambda)
+                              for x in ast.walk(node.func.body))
+                if not inner_l and all(simple_(a) or uses[n_] <= 1
+                                       for n_, a in zip(names, node.args)):
+                    new = _SubstNames(dict(zip(names, node.args))).visit(
+                        clone(node.func.body))
+                    return self.visit(ast.fix_missing_locations(
+                        ast.copy_location(new, node)))
         # s.endswith(("a", "b")) -> s.endswith("a") or s.endswith("b")
         if isinstance(node.func, ast.Attribute) and node.func.attr in (
                 "startswith", "endswith") and len(node.args) == 1 and \
@@ -3700,6 +3728,119 @@ def incremental_dicts(fn):
                         done = True
     if done:
         ast.fix_missing_locations(fn)
+    return done
+
+
+def inline_record_tables(tree):
+    """A module-level list of records `T = [_C(a=.., b=..), ...]` (a private
+    class whose constructor stores its arguments under their own names;
+    T never re-bound or edited) iterated as `for r in T: BODY` with r only
+    read field by field -> BODY once per record with the fields' expressions
+    in place (no break/continue/else in the loop)."""
+    classes = {}
+    for st in tree.body:
+        if isinstance(st, ast.ClassDef) and (
+                (st.name.startswith("_") and not st.name.startswith("__"))
+                or getattr(st, "_spliced", False)):
+            sp = _value_class_spec(st)
+            if sp and not sp[3] and all(
+                    isinstance(e, ast.Name) and e.id == f
+                    for f, e in sp[2]) and [f for f, _ in sp[2]] and set(
+                    f for f, _ in sp[2]) == set(sp[0]):
+                classes[st.name] = sp
+    if not classes:
+        return False
+    tables = {}
+    for st in tree.body:
+        if isinstance(st, ast.Assign) and len(st.targets) == 1 and \
+                isinstance(st.targets[0], ast.Name) and isinstance(
+                st.value, (ast.List, ast.Tuple)) and st.value.elts and all(
+                isinstance(e, ast.Call) and isinstance(e.func, ast.Name)
+                and e.func.id in classes for e in st.value.elts):
+            tables[st.targets[0].id] = st
+    done = False
+    for name, tst in list(tables.items()):
+        refs = [n for n in ast.walk(tree) if isinstance(n, ast.Name)
+                and n.id == name]
+        loops = [lp for lp in ast.walk(tree) if isinstance(lp, ast.For)
+                 and isinstance(lp.iter, ast.Name) and lp.iter.id == name]
+        if len(refs) != 1 + len(loops) or not loops:
+            continue
+        records = []
+        ok = True
+        for e in tst.value.elts:
+            params, defaults, fields, _m, _p = classes[e.func.id]
+            if any(isinstance(a, ast.Starred) for a in e.args) or any(
+                    k.arg is None for k in e.keywords) or len(
+                    e.args) > len(params):
+                ok = False
+                break
+            b = dict(zip(params, e.args))
+            b.update({k.arg: k.value for k in e.keywords})
+            for p_, d_ in defaults.items():
+                b.setdefault(p_, d_)
+            if set(b) != set(params) or not all(isinstance(
+                    v, (ast.Name, ast.Constant, ast.Lambda, ast.Attribute))
+                    for v in b.values()):
+                ok = False
+                break
+            records.append(b)
+        if not ok:
+            continue
+        plans = []
+        for lp in loops:
+            if lp.orelse or not isinstance(lp.target, ast.Name) or any(
+                    isinstance(n, (ast.Break, ast.Continue))
+                    for n in ast.walk(lp)):
+                ok = False
+                break
+            v = lp.target.id
+            uses = [n for b_ in lp.body for n in ast.walk(b_)
+                    if isinstance(n, ast.Name) and n.id == v]
+            attrs = [n for b_ in lp.body for n in ast.walk(b_)
+                     if isinstance(n, ast.Attribute) and isinstance(
+                         n.value, ast.Name) and n.value.id == v
+                     and isinstance(n.ctx, ast.Load)
+                     and n.attr in records[0]]
+            if len(uses) != len(attrs):
+                ok = False
+                break
+            plans.append(lp)
+        if not ok:
+            continue
+        for lp in plans:
+            v = lp.target.id
+            out = []
+            for rec in records:
+                for b_ in lp.body:
+                    nb = clone(b_)
+
+                    class _F(ast.NodeTransformer):
+                        def visit_Attribute(self, n):
+                            if isinstance(n.value, ast.Name) and \
+                                    n.value.id == v and n.attr in rec:
+                                return ast.copy_location(clone(rec[n.attr]),
+                                                         n)
+                            return self.generic_visit(n)
+                    out.append(ast.fix_missing_locations(_F().visit(nb)))
+            for par in ast.walk(tree):
+                for fld in ("body", "orelse", "finalbody"):
+                    blk = getattr(par, fld, None)
+                    if isinstance(blk, list) and any(x is lp for x in blk):
+                        i = [k for k, x in enumerate(blk) if x is lp][0]
+                        blk[i:i + 1] = out
+        tree.body = [x for x in tree.body if x is not tst]
+        done = True
+    if done:
+        for cname in classes:
+            cls = [x for x in tree.body if isinstance(x, ast.ClassDef)
+                   and x.name == cname]
+            inside = {id(n) for c_ in cls for n in ast.walk(c_)}
+            if cls and not any(isinstance(n, ast.Name) and n.id == cname
+                               and id(n) not in inside
+                               for n in ast.walk(tree)):
+                tree.body = [x for x in tree.body if x is not cls[0]]
+        ast.fix_missing_locations(tree)
     return done
 
 
